@@ -351,3 +351,33 @@ M("C01", "sigma term skips zero drives by index", "kill",
 M("C09", "DMRG completes the step before the sweep ends", "kill",
   [(IMPL, "        self.current_energy = energy\n\n        # updating baths and orthogonality center\n",
     "        self.current_energy = energy\n        if self.sweep_count > self.config.max_sweeps // 2:\n            self.timestep_complete()\n            return\n\n        # updating baths and orthogonality center\n")], "CONV-gate")
+M("C11", "rmul scales factor 0 but keeps the centre claim", "kill",
+  [(MPSF, "        factors = scale_factors(self.factors, scalar, which=which)", "        factors = scale_factors(self.factors, scalar, which=0)")], "CENTER-scale")
+M("C11", "scale_factors scales every factor", "kill",
+  [("emu_mps/algebra.py", "    return [scalar * f if i == which else f for i, f in enumerate(factors)]", "    return [scalar * f if i <= which else f for i, f in enumerate(factors)]")], "CENTER-scale")
+M("C11", "twin: which chosen by an if statement", "twin",
+  [(MPSF, "        which = (\n            self.orthogonality_center\n            if self.orthogonality_center is not None\n            else 0  # No need to orthogonalize for scaling.\n        )\n",
+    "        if self.orthogonality_center is None:\n            which = 0\n        else:\n            which = self.orthogonality_center\n")])
+M("C12", "dense operator: identity buffer shared by all terms", "kill",
+  [("emu_sv/dense_operator.py", "        for coeff, oper_torch_with_target_qubits in operations:\n",
+    "        single_qubit_gates = [torch.eye(2, dtype=dtype) for _ in range(n_qudits)]\n        for coeff, oper_torch_with_target_qubits in operations:\n"),
+   ("emu_sv/dense_operator.py", "            single_qubit_gates = [torch.eye(2, dtype=dtype) for _ in range(n_qudits)]\n\n            for operator_torch", "            for operator_torch")], "TABLES-terms")
+M("C11", "MPO: identity buffer shared by all terms", "kill",
+  [("emu_mps/mpo.py", "        mpos = []\n        for coeff, tensorop in operations:\n",
+    "        mpos = []\n        factors = [torch.eye(dim, dim, dtype=dtype).view(1, dim, dim, 1)] * n_qudits\n        for coeff, tensorop in operations:\n"),
+   ("emu_mps/mpo.py", "            factors = [torch.eye(dim, dim, dtype=dtype).view(1, dim, dim, 1)] * n_qudits\n\n            for op in tensorop:", "            for op in tensorop:")], "TABLES-terms")
+M("C12", "sparse operator: coefficient dropped", "kill",
+  [("emu_sv/sparse_operator.py", "accum_res, coeff * reduce(sparse_kron, single_qubit_gates)", "accum_res, reduce(sparse_kron, single_qubit_gates)")], "TABLES-terms")
+M("C15", "MPS.sample: readout errors only for qubits", "kill",
+  [(MPSF, "        if p_false_neg > 0 or p_false_pos > 0 and self.dim == 2:", "        if (p_false_neg > 0 or p_false_pos > 0) and self.dim == 2:")], "ROLE-readout")
+M("C23", "SLM copy taken before the cutoff", "kill",
+  [(PA, "            full_interaction_matrix = full_interaction_matrix.clone()\n\n", "            full_interaction_matrix = full_interaction_matrix.clone()\n            masked_interaction_matrix = full_interaction_matrix.clone()\n\n"),
+   (PA, "            masked_interaction_matrix = full_interaction_matrix.clone()\n\n            # disable interaction", "            # disable interaction")], "INTERACT")
+M("C08", "stalled restart reported as converged", "kill",
+  [("emu_base/math/krylov_energy_min.py", "        result = replace(result, restart_count=r, iteration_count=total_iters)",
+    "        result = replace(result, restart_count=r, iteration_count=total_iters, converged=result.converged or r > 3)")], "CONV-rewrite")
+M("C24", "eff_noise operators filtered but rates not", "kill",
+  [(JL, "            torch.tensor(op, dtype=torch.complex128) for op in noise_model.eff_noise_opers\n",
+    "            torch.tensor(op, dtype=torch.complex128) for op in noise_model.eff_noise_opers if op is not None\n")], "BASIS-rate")
+M("C24", "twin: zero-rate pairs dropped", "twin",
+  [(JL, "            for rate, op in zip(noise_model.eff_noise_rates, torch_ops)", "            for rate, op in zip(noise_model.eff_noise_rates, torch_ops) if rate > 0.0")])
